@@ -72,7 +72,13 @@ fn write_source_span_at(f: &mut fmt::Formatter<'_>, file: &FileOrLib, span: Span
         FileOrLib::Lib(lib) => write_source_line_from_stdlib(f, lib, span.line_start)?,
     }
     write!(f, "{}", INDENT)?;
-    underline(f, span.col_start, span.col_end - span.col_start)
+    // A span can end on a later line (multi-line string literals).
+    let len = if span.line_start == span.line_end {
+        span.col_end - span.col_start
+    } else {
+        1
+    };
+    underline(f, span.col_start, len)
 }
 
 fn file_line_display(file: &FileOrLib, line: usize) -> String {
